@@ -21,6 +21,11 @@ Four families, each a finite grammar enumerated completely up to a size bound
                   range / comprehensions / helper calls, under branches, loops
                   and early returns
 
+  S  shadowing    a comprehension target that shadows a name already in scope (parameter or
+                  earlier local; real, bool or list), with that name read again later in the SAME
+                  statement (sibling operand, later tuple element, second comprehension, if-expression
+                  arm, while condition, return value) and in the next statement
+
 A program is `Prog(fam, src, args, tag)`: `src` is the text of one module
 (helpers + `f`), `args` the names of f's parameters (a subset of ARG_TYPES, in
 canonical order).  `inputs(prog)` is the complete product of the per-family
@@ -616,6 +621,48 @@ def family_Z(size: int, core: bool, exact: bool = False) -> Iterator[Prog]:
 # ----------------------------------------------------------------------
 # inputs
 
+# ----------------------------------------------------------------------
+# Family S: comprehension targets that shadow a visible name
+#
+# The comprehension's binding ends with the comprehension: every read of the shadowed name that
+# follows it -- in the same expression, the same statement or the next one -- observes the outer
+# definition again (and has the outer definition's type / class / constant).
+
+# (prelude, shadowed name N, kind of N, iterables whose element type equals / differs from N's type)
+S_BINDINGS = [
+    ([], 'u', 'real', ['us', 'bs', 'zip(us, vs)']),                       # parameter
+    (['x = u + 1'], 'x', 'real', ['us', 'bs', 'zip(us, vs)']),           # earlier local
+    (['x = u > 0'], 'x', 'bool', ['bs', 'us', 'zip(bs, us)']),           # earlier local, bool
+    ([], 'us', 'list', ['uss', 'us', 'bs']),                              # list parameter (also its own iterable)
+]
+S_ELTS = ['{n}', '0']          # the element reads the target / does not
+# how a value of each kind is used as an operand next to `len(C)` and as a loop guard
+S_SIBLING = {'real': 'len({c}) + {n}', 'bool': 'len({c}) > 0 and {n}', 'list': 'len({c}) + len({n})'}
+S_GUARD = {'real': '{n} < 100', 'bool': '{n}', 'list': 'len({n}) > 0'}
+
+
+def _s_shapes(n: str, kind: str, c: str, it: str) -> Iterator[tuple[str, list[str]]]:
+    tail = [f'r = {n}', 'return (t, r)']
+    yield 'sibling', [f't = {S_SIBLING[kind].format(c=c, n=n)}'] + tail
+    yield 'tuple', [f't = (len({c}), {n})'] + tail
+    yield 'comp2', [f't = (len({c}), [{n} for w in {it}])'] + tail
+    yield 'ifexpr', [f't = ({n} if len({c}) > 0 else {n})'] + tail
+    yield 'return', [f'return (len({c}), {n})']
+    yield 'while', ['i = 0', f't = {n}', f'while i < len({c}) and {S_GUARD[kind].format(n=n)}:',
+                    f'    t = {n}', '    i = i + 1'] + tail
+
+
+def family_S() -> Iterator[Prog]:
+    for prelude, n, kind, its in S_BINDINGS:
+        for it in its:
+            pat = f'{n}, w' if it.startswith('zip') else n
+            pre = (['bs = [u > 0, v > 0]'] if 'bs' in it else []) + prelude
+            for elt in S_ELTS:
+                c = f'[{elt.format(n=n)} for {pat} in {it}]'
+                for shape, body in _s_shapes(n, kind, c, it):
+                    yield make_prog('S', pre + body, 'S-' + shape)
+
+
 NAN, INF = float('nan'), float('inf')
 
 POOLS = {
@@ -629,6 +676,8 @@ POOLS = {
     'L': {'u': [-1.0, 1.0], 'v': [1.0], 'n': [0, 1],
           'us': [[1.0, 2.0]], 'vs': [[7.0, 8.0, 9.0]],
           'uss': [[[3.0], [4.0, 5.0]], [[3.0, 6.0]]]},
+    'S': {'u': [-1.0, 3.0], 'v': [1.0], 'n': [0], 'us': [[], [7.0, 8.0]], 'vs': [[5.0, 6.0]],
+          'uss': [[[3.0], [4.0, 5.0]]]},
     'Z': {'u': [-1.0, 1.0], 'v': [1.0], 'n': [0, 1, 2],
           'us': [[1.0, 2.0], [1.0, 2.0, 3.0]], 'vs': [[7.0, 8.0], [9.0]],
           'uss': [[[1.0]]]},
@@ -697,6 +746,7 @@ def space(tier: str, seed: int = 0):
             ('L<=2', lambda: family_L(2, False), None),
             ('L=3core', lambda: family_L(3, True, True), None),
             ('T', family_T, None),
+            ('S', family_S, None),
             ('Z<=2', lambda: family_Z(2, False), None),
             ('Z=3core', lambda: family_Z(3, True, True), (seed % 8, 8)),
         ]
@@ -707,6 +757,7 @@ def space(tier: str, seed: int = 0):
         ('Vchain', family_V_chain, None),
         ('L<=3', lambda: family_L(3, False), None),
         ('T', family_T, None),
+        ('S', family_S, None),
         ('Z<=2', lambda: family_Z(2, False), None),
         ('Z=3core', lambda: family_Z(3, True, True), None),
     ]
